@@ -44,7 +44,7 @@ func init() {
 	}
 	harness.Specs["C13"] = &harness.PropSpec{
 		ID: "C13", Test: "TestC13", Kind: "pc", Level: "exploration", Race: true,
-		Quick: 2400, Thorough: 12000,
+		Quick: 1600, Thorough: 12000,
 		Rule: "generated two-goroutine scenarios under the race detector: a producer (event sizes boundary biased, chunkings, flush points) and a consumer (reader " +
 			"sections of generated length, partial reads continuing in the next section, ACK batches) run concurrently on one queue on the simulated disk, with " +
 			"generated yield patterns; page size 1024/4096, small write buffers, bounded (retry on full) and unbounded files; oracle: the consumer receives exactly " +
